@@ -196,6 +196,15 @@ theorem step_cases (chk : Callback → Bytes → Bool) (cbs : List Callback) (s 
       obtain ⟨cb, hcb, _, _⟩ := hfi
       exact ⟨ht', i, cb, hcb, firstIdx_some hf, step_fire chk cbs s a ht' i cb hcb (firstIdx_some hf)⟩
 
+/-- a step looks at the state only through the once flags, the stage timeout, the time of the
+arrival and the two accumulations it produces -/
+theorem step_congr (chk : Callback → Bytes → Bool) (cbs : List Callback) (s1 s2 : St) (a1 a2 : Arrival)
+    (hf : s1.fired = s2.fired) (ht : s1.t = s2.t) (he : s1.el + a1.gap = s2.el + a2.gap)
+    (ha : s1.acc ++ a1.data = s2.acc ++ a2.data) (hfu : s1.full ++ a1.data = s2.full ++ a2.data) :
+    step chk cbs s1 a1 = step chk cbs s2 a2 := by
+  unfold step execute
+  simp only [hf, ht, he, ha, hfu]
+
 theorem run_done {chk : Callback → Bytes → Bool} {cbs : List Callback} {s : St} {a : Arrival}
     {f : List Nat} {ev : Option Event} {o : Outcome} (l : List Arrival)
     (h : step chk cbs s a = .done f ev o) : run chk cbs s (a :: l) = ⟨ev.toList, o, f⟩ := by
